@@ -1,5 +1,6 @@
 import Dyce.RollerOwn
 import Dyce.RollerAccount
+import Dyce.RollerShape
 /-!
 # C12 — Rolls are complete, consistent records of how results were produced
 
@@ -25,7 +26,8 @@ rolls — through the same steps as each `roll()` method.  `mkRollDeep` is the r
 | derived values = the node's operation on the recorded source values (whole tuple, path by path) | `C12_values_follow_denotation` |
 | number of source rolls: one per source, `n` for `n@r`, 2 / 1 for binary / unary nodes | `C12_source_rolls_count` |
 | every live outcome of every source roll is kept, a source (possibly through an implicit sum) of a derived outcome, or the source of a tombstone — every node kind, every path | `C12_live_sources_accounted`, `C12_live_sources_accounted_subst` |
-| `roll.r`, source-roll order | model by construction + identity checks on the real record in the correspondence |
+| source rolls were produced, in order, by the node's sources: one per source for pool / filter / selection, `n` rolls of the source for `n@r`, left then right for binary nodes, the source's roll followed by one (re-wrapped) roll of the expansion roller per substitution — every tree, every path; "produced by" = is one of the rolls of that source, so the statement applies again to each source roll | `C12_source_rolls_in_order` |
+| `roll.r` (object identity) | model by construction (the record of a node is built by that node's clause) + identity checks on the real record in the correspondence |
 -/
 namespace Dyce
 open List
@@ -50,6 +52,25 @@ theorem C12_live_sources_accounted (t : RTree) (hns : ∀ p e rep md src, t ≠ 
 
 theorem C12_live_sources_accounted_subst (p : Int → Bool) (e : RTree) (replace : Bool) (md : Nat) (src : RTree) :
     AllW Accounted (rollW mkRollDeep (.subst p e replace md src)) := rollW_accounted_subst p e replace md src
+
+/-- the recorded source rolls are, in order, rolls of the node's sources (see `SrcShape`) -/
+theorem C12_source_rolls_in_order (t : RTree) :
+    AllW (fun rec => SrcShape t rec.sourceRolls) (rollW mkRollDeep t) := rollW_srcShape t
+
+/-- non-vacuity: `2@d2` records two source rolls, each a roll of the d2 -/
+example : SrcShape (.rep 2 (.value (.hist [(1, 1), (2, 1)])))
+    [mkRollDeep [.mk (some 1) [] false] [], mkRollDeep [.mk (some 2) [] false] []] := by
+  refine ⟨rfl, ?_⟩
+  intro r hr
+  simp only [List.mem_cons, List.not_mem_nil, or_false] at hr
+  have hp : ∀ {β} (b : β), (b, 1) ∈ (pure b : W β) := fun b => List.mem_singleton.mpr rfl
+  rcases hr with rfl | rfl
+  · refine ⟨1, ?_⟩
+    rw [rollW, W.bind_def, List.mem_flatMap]
+    exact ⟨(1, 1), by simp [rollHist, total], by simpa using hp _⟩
+  · refine ⟨1, ?_⟩
+    rw [rollW, W.bind_def, List.mem_flatMap]
+    exact ⟨(2, 1), by simp [rollHist, total], by simpa using hp _⟩
 
 /-- how many source rolls a node records (substitution: one per expansion, not fixed) -/
 def expectedSrcRolls : RTree → Option Nat
